@@ -813,6 +813,8 @@ def _closed_truth(lit: str) -> Optional[bool]:
             return _MUTABLE  # never None; its emptiness can change through method calls the environment does not see
         if isinstance(x, ast.JoinedStr):
             raise ValueError
+        if isinstance(x, ast.Call) and isinstance(x.func, ast.Name) and x.func.id in ("list", "dict", "set", "frozenset", "tuple", "sorted", "str", "bytes", "bytearray") and SEP not in x.func.id:
+            return _MUTABLE  # what a builtin container constructor returns is never None; its emptiness is not known here
         if isinstance(x, ast.UnaryOp) and isinstance(x.op, ast.Not):
             return not ev(x.operand)
         if isinstance(x, ast.UnaryOp) and isinstance(x.op, ast.USub) and isinstance(x.operand, ast.Constant) and isinstance(x.operand.value, (int, float)):
